@@ -28,7 +28,8 @@ def name(t):
             APPDATA: "ApplicationData"}.get(t, str(t))
 
 
-def legal(op, ver, sender, seq, i, extra=None, after_finished=False):
+def legal(op, ver, sender, seq, i, extra=None, after_finished=False,
+          kex=None):
     """op in skip|dup|swap|insert|replace applied at index i of seq (list of
     message types sent by `sender` ('c'|'s') in a handshake of version
     ver).  extra = inserted / replacing type."""
@@ -90,13 +91,17 @@ def legal(op, ver, sender, seq, i, extra=None, after_finished=False):
         if extra == CERT_REQ and sender == "s" and not tls13:
             # a certificate-authenticated server may ask for a client
             # certificate right before ServerHelloDone (RFC 5246 7.4.4);
-            # anonymous / pure-SRP servers must not; SRP with a server
-            # certificate is not settled by RFC 5054 -> no verdict
+            # anonymous servers must not, and the SRP handshake of RFC 5054
+            # (section 2.2, figure) has no CertificateRequest at all
+            if kex == "srp":
+                return False
             if m == SHD and CERT in seq[:i] and CERT_REQ not in seq:
                 return None
             return False
         return False
     if op == "replace":
+        if extra == m:
+            return None      # same message type, other content: not ordering
         return False
     if op == "append":
         # message m immediately followed, in the same record, by `extra`
@@ -106,8 +111,11 @@ def legal(op, ver, sender, seq, i, extra=None, after_finished=False):
             return False
         # otherwise packing is fine iff the resulting message sequence is:
         # it is the same as inserting `extra` before message i+1
-        return legal("insert", ver, sender, seq, min(i + 1, len(seq) - 1),
-                     extra) if i + 1 < len(seq) else \
-            (True if tls13 and extra in (NST, KEY_UPDATE) and sender == "s"
-             else False)
+        if i + 1 < len(seq):
+            return legal("insert", ver, sender, seq, i + 1, extra, kex=kex)
+        if tls13 and extra in (NST, KEY_UPDATE) and sender == "s":
+            return True
+        if not tls13 and extra == HELLO_REQUEST and sender == "s":
+            return None      # after completion: ignored / no_renegotiation
+        return False
     raise ValueError(op)
